@@ -734,6 +734,12 @@ func (g *DependencyGraph) CalculateDepths() {
 		for _, depKey := range current.Dependents {
 			if dep, exists := g.nodes[depKey]; exists {
 				newDepth := current.Depth + 1
+				if newDepth >= len(g.nodes) {
+					// The longest chain of an acyclic graph has fewer edges than
+					// the graph has nodes: this one runs around a cycle, and
+					// following it would never end
+					continue
+				}
 				if dep.Depth < newDepth {
 					dep.Depth = newDepth
 					queue = append(queue, dep)
